@@ -32,12 +32,13 @@ Body == [s \in 1..Len(Tr.snapdefs) |->
             ts      |-> Tr.snapdefs[s].ts,
             files   |-> Rng(Tr.snapdefs[s].files)]]     \* set of <<path id, version id>>
 
-Idle == [kind |-> "idle", u |-> "", D |-> {}, had |-> {}, refuse |-> FALSE]
+Idle == [kind |-> "idle", u |-> "", D |-> {}, had |-> {}, refuse |-> FALSE, repeat |-> FALSE]
 
 State0 == [chunks |-> {<<x[1], x[2]>> : x \in Rng(Tr.init.chunks)},
            bad    |-> {},
            snaps  |-> Rng(Tr.init.snaps),
            op     |-> [p \in 1..NP |-> Idle],
+           snapped |-> {},                        \* <<family, set of <<path, version>>>> of snapshots taken and still fully stored
            dirty  |-> Rng(Tr.init.dirty)]         \* families that may hold orphans
 
 Visible(s, u)  == {x \in s.snaps : Body[x].fam = FamOfU(u)}
@@ -49,12 +50,14 @@ Apply(s, e) ==
   CASE e.a = "begin" ->
          [s EXCEPT !.op[e.p] = [kind |-> e.k, u |-> e.u, D |-> Rng(e.D),
                                 had  |-> ChunksOfFam(s.chunks, FamOfU(e.u)),
-                                refuse |-> e.k = "del" /\ (e.unknown \/ ~(Rng(e.D) \subseteq Readable(s, e.u)))]]
+                                refuse |-> e.k = "del" /\ (e.unknown \/ ~(Rng(e.D) \subseteq Readable(s, e.u))),
+                                \* C07: the very same data was already snapshotted by a member of the family and nothing of it was removed since
+                                repeat |-> e.k = "snap" /\ <<FamOfU(e.u), Rng(e.want)>> \in s.snapped]]
     [] e.a = "putc" ->
          [s EXCEPT !.chunks = @ \cup {<<e.f, e.c>>},
                    !.bad = IF e.good THEN @ \ {<<e.f, e.c>>} ELSE @ \cup {<<e.f, e.c>>}]
-    [] e.a = "delc" -> [s EXCEPT !.chunks = @ \ {<<e.f, e.c>>}, !.bad = @ \ {<<e.f, e.c>>}]
-    [] e.a = "puts" -> [s EXCEPT !.snaps = @ \cup {e.s}]
+    [] e.a = "delc" -> [s EXCEPT !.chunks = @ \ {<<e.f, e.c>>}, !.bad = @ \ {<<e.f, e.c>>}, !.snapped = {x \in @ : x[1] # e.f}]
+    [] e.a = "puts" -> [s EXCEPT !.snaps = @ \cup {e.s}, !.snapped = @ \cup {<<Body[e.s].fam, Rng(e.want)>>}]
     [] e.a = "dels" -> [s EXCEPT !.snaps = @ \ {e.s}]
     [] e.a = "end"  ->
          LET o == s.op[e.p]  f == FamOfU(o.u) IN
@@ -95,6 +98,7 @@ Clause(s, e) ==
          LET o == s.op[e.p] IN
          IF On("P:GcWritesNothing") /\ (o.kind \in {"del", "clean"}) THEN "P:GcWritesNothing"
          ELSE IF On("P:UploadOnlyIfAbsent") /\ (o.kind = "snap" /\ e.f = FamOfU(o.u) /\ e.c \in o.had) THEN "P:UploadOnlyIfAbsent"
+         ELSE IF On("P:RepeatTransfersNothing") /\ (o.kind = "snap" /\ o.repeat) THEN "P:RepeatTransfersNothing"
          ELSE IF On("P:NoAlias") /\ (o.kind = "snap" /\ e.f # FamOfU(o.u)) THEN "P:NoAlias"
          ELSE IF On("P:Safety") /\ (~SafetyOf(n.chunks, n.bad, n.snaps, Body)) THEN "P:Safety"
          ELSE "ok"
